@@ -147,19 +147,20 @@ def main():
       '   different: another mechanism, code site or trigger): rounds 1 and 2 for all 20 properties, round 3 for the 14\n'
       '   behavioural properties of the priority / join / limit disciplines, round 4 for the rest (C04 C10 C13 C14 C18\n'
       '   C20), round 5 for the 12 properties with the most misses so far, round 6 for the other 8, round 7 for 17 properties\n'
-      '   (all but C04, C13, C18), round 8 for 13 and round 9 for 15 (from round 8 on the harness was frozen until the changes had been run;\n'
+      '   (all but C04, C13, C18), round 8 for 13, round 9 for 15 and round 10 for 10 (from round 8 on the harness was frozen until the changes had been run;\n'
       '   the C01 agent of round 9 found no change that breaks the capacity bound and still passes the existing suite):\n'
       '   %d changes. **Caught by the owning check at the first try: round 1: 32 of 40; round\n'
       '   2: 28 of 40; round 3: 19 of 28; round 4: 10 of 12; round 5: 17 of 24; round 6: 13 of 16; round 7: 24 of 35\n'
       '   (four of the eleven misses were closed on reading the agents\' reports, before the changes were run); round\n'
-      '   8: 20 of 26; round 9: 22 of 28.** Each miss showed a real weakness - a workload that was too\n'
+      '   8: 20 of 26; round 9: 22 of 28; round 10: 16 of 20.** Each miss showed a real weakness - a workload that was too\n'
       '   narrow (unusual configurations above all), an oracle that was sound but too weak, an observation taken too\n'
       '   late, or instrumentation that synchronised what it was supposed to watch - and was closed by strengthening\n'
       '   the monitor, never by special-casing the change. After that all are caught by the owning check, except\n'
       '   C05-10 and C05-11, whose effects exist only while the configured set is being changed by AddInput /\n'
       '   RemoveInput - C05 speaks about a configured set, and no sound transitional bound exists (C05-10 is caught by\n'
-      '   C01 / C06) - and C02-13 / C02-14, which delay or block delivery without ever losing or duplicating an item\n'
-      '   in a configuration where delivery is promised (caught by C06; see their `meta.json`):\n' % len(glob.glob(os.path.join(V, 'seeded', '*', ''))))
+      '   C01 / C06) - C02-13 / C02-14, which delay or block delivery without ever losing or duplicating an item\n'
+      '   in a configuration where delivery is promised (caught by C06), and C07-16, which only acts in v1\n'
+      '   configurations that the library documents as possibly not processing a priority (see their `meta.json`):\n' % len(glob.glob(os.path.join(V, 'seeded', '*', ''))))
     w('   | change | what it does / what it needs | caught by | first try |')
     w('   |---|---|---|---|')
     for d in sorted(glob.glob(os.path.join(V, 'seeded', '*', ''))):
@@ -215,8 +216,9 @@ def main():
       '   configured priority outside the list. Round 9: C07-14 -> GracefulStop() in the same scheduler pass as the\n'
       '   AddInput before it, with a divider that takes its time; C12-12 -> a reference model of the portion pacing\n'
       '   that holds for any consumer; C16-13 -> Stop() after a divider fault whose error nobody read; C17-14 ->\n'
-      '   re-adding a removed priority with its original channel object. `meta.json` of each change records what was\n'
-      '   run and seen.\n')
+      '   re-adding a removed priority with its original channel object. Round 10: C11-16 -> timeouts of years;\n'
+      '   C17-15 -> AddInput with a nil channel; C19-16 -> blocked goroutines at the instant GracefulStop() returns,\n'
+      '   also when it was cut short. `meta.json` of each change records what was run and seen.\n')
     if seeded:
         def listed(n, c):
             try:
@@ -225,10 +227,13 @@ def main():
                 return True
         seeded = {n: [(c, v) for c, v in l if listed(n, c)] for n, l in seeded.items()}
         bad = [(n, c, v) for n, l in seeded.items() for c, v in l if v != 'CAUGHT']
-        w('   Re-run of the first 144 (rounds 1-5) after the strengthening that followed round 5 (`tools/mutant_matrix.sh`, quick\n'
-          '   tier, own check plus the other checks listed for the change): %d (change, check) pairs, %d caught%s; the 16\n'
-          '   changes of round 6 were run against their checks one by one (`logs` of `tools/round_batch.sh`, results in\n'
-          '   their `meta.json`).\n' % (sum(len(l) for l in seeded.values()), sum(1 for l in seeded.values() for c, v in l if v == 'CAUGHT'),
+        w('   Re-run of the first 249 (rounds 1-9) after round 9 (`tools/mutant_matrix.sh`, quick tier, own check plus the\n'
+          '   other checks listed for the change, while seeding agents and a thorough sweep loaded the machine): %d (change,\n'
+          '   check) pairs, %d caught%s. An earlier full re-run (after round 8) had shown five detections to be fragile at the\n'
+          '   quick tier (C01-7, C02-11, C08-7, C15-6, C20-9: caught at one seed in three) and this one a sixth (C01-3, two\n'
+          '   in three; its line is from the re-run after the fix); their workloads were made denser until each was caught at\n'
+          '   seeds 1, 2 and 3. The 20 changes of round 10 were run against their checks one by one (`tools/round_batch.sh`,\n'
+          '   results in their `meta.json`).\n' % (sum(len(l) for l in seeded.values()), sum(1 for l in seeded.values() for c, v in l if v == 'CAUGHT'),
                                          '' if not bad else '; not caught: ' + ', '.join('%s/%s(%s)' % b for b in bad)))
     w('4. Anything a realistic break leaves invisible gets more observability (another workload or observation\n'
       '   point), not cleverer inference - that is what the misses were used for.\n')
